@@ -332,6 +332,10 @@ finding("C07-wildcard-join-duplicate-names", "C07", ["C01", "C05"],
  "a join of two relations of unknown columns (`from t | join u (..)`, both emitted as `t.*, u.*`) that share a column name, followed by steps that move the join into a CTE and refer to a shared name (hazard wild_dup_join)",
  "`from t1 | join t2 (==id) | derive {c2 = 1} | filter t2.a == 5` compiles to `WITH table_0 AS (SELECT t1.*, t2.*, 1 AS c2 FROM t1 INNER JOIN t2 ON t1.id = t2.id) SELECT * FROM table_0 WHERE a = 5`: inside table_0 there are two columns `a`; the filter meant t2.a (SQLite silently takes the first, other engines reject the ambiguous name). With a self-join (`from t3 | join r0 = t3 (==s) | derive {..} | filter r0.a == 0`) the reference becomes `_expr_1`, which table_0 never defines (no such column).",
  None)
+finding("C08-formatter-rewrites-literal-with-backslash", "C08", [],
+ "output formatting on (the default `Options::format`), a string literal whose value contains a backslash",
+ "The SQL text is re-laid-out by sqlformat, whose tokenizer treats backslash as an escape character inside quotes: `select {v = '\\\\'}` (the one-character value backslash) is emitted as `' \\ '` with formatting on (and correctly as the two characters quote-backslash-quote with `no_format`): the literal's content is rewritten, and a backslash before the closing quote makes the rest of the statement part of the 'string'.",
+ None)
 finding("C08-nul-character", "C08", [],
  "a string literal containing U+0000",
  "A NUL character is emitted verbatim inside the SQL text; SQLite's C API truncates the statement / the value at it.",
